@@ -6,8 +6,8 @@ From Ford Require Import Base.Str Out.SettingsTypes Gen.Schema Out.Settings Out.
 
 (* Table facts over the complete regenerated schema: every option name is a metadata key that the
    markdown syntax can carry (and is its own lower-case form), names are distinct, the type table
-   agrees with the schema, every Dict[str,str] option has a one-character non-blank separator,
-   config_sensitive names only options, and the defaults pass __post_init__. *)
+   agrees with the schema, every Dict[str,str] option has a one-character non-blank separator, and
+   the defaults pass __post_init__. *)
 Theorem C15_schema_sound : schema_ok = true.
 Proof. exact schema_ok_true. Qed.
 Print Assumptions C15_schema_sound.
@@ -26,47 +26,33 @@ Theorem C15_md_toml_agree : forall i kvs,
 Proof. exact md_toml_agree_simple. Qed.
 Print Assumptions C15_md_toml_agree.
 
-(* ... and for every single option also for the two remaining value forms: a list written as a
-   bare scalar, and extra file types (strings in markdown, tables in TOML). *)
-Theorem C15_md_toml_agree_every_option : forall i k v,
-  wt_option (k, v) = true -> effective_md i [(k, v)] = effective_toml i [(k, v)].
-Proof. exact md_toml_agree_single. Qed.
-Print Assumptions C15_md_toml_agree_every_option.
+(* fpm.toml and --config agree for EVERY set of distinct options and all values: the --config
+   options join the options of the settings file before the settings object is built. *)
+Theorem C15_toml_config_agree : forall i kvs,
+  wt_options kvs = true -> effective_toml i kvs = effective_config i kvs.
+Proof. exact toml_config_agree. Qed.
+Print Assumptions C15_toml_config_agree.
 
-(* The full statement for the three formats is FALSE of the code (--config values are attached
-   after __post_init__): partial theorem outside the recorded region + refutation. *)
-Definition C15_formats_agree_statement : Prop :=
-  forall i k v, wt_option (k, v) = true ->
-    effective_md i [(k, v)] = effective_toml i [(k, v)] /\
-    effective_toml i [(k, v)] = effective_config i [(k, v)].
-Theorem C15_formats_agree_partial : forall i k v,
-  wt_option (k, v) = true -> config_safe [(k, v)] = true ->
+(* The three formats agree for every option of the schema and every well-typed value, including a
+   list written as a bare scalar and extra file types (strings in markdown, tables in TOML). *)
+Theorem C15_formats_agree : forall i k v,
+  wt_option (k, v) = true ->
   effective_md i [(k, v)] = effective_toml i [(k, v)] /\
   effective_toml i [(k, v)] = effective_config i [(k, v)].
-Proof. exact formats_agree_partial. Qed.
-Print Assumptions C15_formats_agree_partial.
-Theorem C15_formats_agree_refuted : ~ C15_formats_agree_statement.
-Proof. exact formats_agree_refuted. Qed.
-Print Assumptions C15_formats_agree_refuted.
+Proof. exact formats_agree. Qed.
+Print Assumptions C15_formats_agree.
 
-(* --config "src_dir = './s1'": one path per character, where fpm.toml gives [<project>/s1]. *)
-Theorem C15_config_scalar_list_refuted :
-  exists i k v, wt_option (k, v) = true /\
-    field_is (effective_toml i [(k, v)]) k (PList [PPath (s "/work/proj/s1")]) = true /\
-    field_is (effective_config i [(k, v)]) k
-             (PList [PPath (s "/work/proj"); PPath (s "/"); PPath (s "/work/proj/s"); PPath (s "/work/proj/1")]) = true.
-Proof. exact config_scalar_list_refuted. Qed.
-Print Assumptions C15_config_scalar_list_refuted.
-
-(* Command line over --config over the file value, field by field; other fields untouched;
-   an absent command line / --config changes nothing. *)
-Theorem C15_precedence : forall st k t v v' c,
+(* Command line over --config over the file value, field by field: the --config value replaces the
+   file value among the keyword arguments of the settings object and leaves the others alone; a
+   command line value replaces the field; an absent --config / command line changes nothing. *)
+Theorem C15_precedence : forall st file k t v v' c,
   field_ty k = Some t -> convert_setting t k v = Ok v' -> aget k st <> None ->
-  (exists st', apply_cli (apply_config st [(k, c)]) [(k, v)] = Ok st' /\ sget k st' = v'
-               /\ forall k', k' <> k -> sget k' st' = sget k' st)
-  /\ apply_cli st [] = Ok st
-  /\ sget k (apply_config st [(k, c)]) = c
-  /\ apply_config st [] = st.
+  aget k (kw_update file [(k, c)]) = Some c
+  /\ (forall k', k' <> k -> aget k' (kw_update file [(k, c)]) = aget k' file)
+  /\ kw_update file [] = file
+  /\ (exists st', apply_cli st [(k, v)] = Ok st' /\ sget k st' = v'
+                  /\ forall k', k' <> k -> sget k' st' = sget k' st)
+  /\ apply_cli st [] = Ok st.
 Proof. exact precedence. Qed.
 Print Assumptions C15_precedence.
 
@@ -76,28 +62,30 @@ Theorem C15_file_over_default : forall k x,
 Proof. exact file_over_default. Qed.
 Print Assumptions C15_file_over_default.
 
-(* Project file: an unknown key is reported (warned list) and dropped; nothing else changes. *)
-Theorem C15_unknown_key_dropped : forall lines lines' u vs st w,
+(* An unknown key is reported (warned list) and dropped, and nothing else changes -- in the project
+   file, in fpm.toml and in --config alike. *)
+Theorem C15_unknown_key_dropped : forall lines lines' extra u vs st w,
   field_ty u = None -> meta_preprocessor lines' = meta_preprocessor lines ++ [(u, vs)] ->
-  run_markdown lines = Ok (st, w) -> run_markdown lines' = Ok (st, w ++ [u]).
+  run_markdown lines extra = Ok (st, w) -> run_markdown lines' extra = Ok (st, w ++ [u]).
 Proof. exact unknown_key_dropped. Qed.
 Print Assumptions C15_unknown_key_dropped.
-
-(* "unknown keys are reported without aborting" fails for the two other formats. *)
-Definition C15_unknown_key_statement_toml : Prop :=
-  forall u X, find_field project_schema u = None -> exists st w, run_toml [(u, X)] = Ok (st, w) /\ In u w.
-Theorem C15_unknown_key_refuted_toml : forall u X,
-  find_field project_schema u = None -> run_toml [(u, X)] = Err (s "TypeError") u true.
+Theorem C15_unknown_key_dropped_toml : forall kv1 kv2 extra u X,
+  field_ty u = None ->
+  run_toml (kv1 ++ (u, X) :: kv2) extra =
+  do r <- run_toml (kv1 ++ kv2) extra;
+  Ok (fst r, snd (drop_unknown kv1) ++ u :: snd (drop_unknown kv2)).
 Proof. exact unknown_key_toml. Qed.
-Print Assumptions C15_unknown_key_refuted_toml.
-Theorem C15_unknown_key_refuted_config : forall i u X,
-  aget u post_defaults = None -> i_lines i = [] -> i_toml i = None -> i_cfg i = Some [(u, X)] ->
-  effective i = effective (mkinput [] None (Some []) (i_cli i) (i_cwd i) (i_dir i) (i_ford i)).
+Print Assumptions C15_unknown_key_dropped_toml.
+Theorem C15_unknown_key_dropped_config : forall i c1 c2 u X st w,
+  field_ty u = None -> i_cfg i = Some (c1 ++ (u, X) :: c2) ->
+  effective (mkinput (i_lines i) (i_toml i) (Some (c1 ++ c2)) (i_cli i) (i_cwd i) (i_dir i) (i_ford i)) = Ok (st, w) ->
+  exists w', effective i = Ok (st, w') /\ In u w'.
 Proof. exact unknown_key_config. Qed.
-Print Assumptions C15_unknown_key_refuted_config.
+Print Assumptions C15_unknown_key_dropped_config.
 
-(* Ill-typed values.  Project file: a bool option that is not a single true/false, and a
-   key/value option without its separator, are rejected with a message naming the option. *)
+(* Ill-typed values.  Project file: a bool option that is not a single true/false, an int option
+   that int() rejects, and a key/value option without its separator are rejected with a message
+   naming the option. *)
 Theorem C15_ill_typed_md_bool_named : forall key (vals : list str),
   (match vals with
    | [x] => negb (seqb (lower x) (s "true")) && negb (seqb (lower x) (s "false"))
@@ -107,31 +95,26 @@ Theorem C15_ill_typed_md_bool_named : forall key (vals : list str),
   convert_setting TBool key (PList (map PStr vals)) = Err (s "ValueError") key true.
 Proof. exact ill_typed_md_bool. Qed.
 Print Assumptions C15_ill_typed_md_bool_named.
+Theorem C15_ill_typed_md_int_named : forall key x, py_int x = None ->
+  convert_setting TInt key (PList [PStr x]) = Err (s "ValueError") key true.
+Proof. exact ill_typed_md_int. Qed.
+Print Assumptions C15_ill_typed_md_int_named.
 Theorem C15_ill_typed_md_dict_named : forall key sep x,
   aget key option_separators = Some [sep] -> x <> [] -> existsb (Ascii.eqb sep) x = false ->
   convert_setting TDictStr key (PList [PStr x]) = Err (s "RuntimeError") key true.
 Proof. exact ill_typed_md_dict. Qed.
 Print Assumptions C15_ill_typed_md_dict_named.
 
-(* The full demand "rejected with a message naming the option" is FALSE for fpm.toml, for
-   --config, and for int options of the project file. *)
+(* The full demand "rejected with a message naming the option" is FALSE for fpm.toml and for
+   --config, whose values are not checked against the declared type. *)
 Definition C15_ill_typed_statement_toml : Prop := ill_typed_toml_statement.
 Definition C15_ill_typed_statement_config : Prop := ill_typed_config_statement.
-Definition C15_ill_typed_statement_md : Prop := ill_typed_md_statement.
 Theorem C15_ill_typed_refuted_toml : ~ C15_ill_typed_statement_toml.
 Proof. exact ill_typed_refuted_toml. Qed.
 Print Assumptions C15_ill_typed_refuted_toml.
 Theorem C15_ill_typed_refuted_config : ~ C15_ill_typed_statement_config.
 Proof. exact ill_typed_refuted_config. Qed.
 Print Assumptions C15_ill_typed_refuted_config.
-Theorem C15_ill_typed_refuted_md_int : ~ C15_ill_typed_statement_md.
-Proof. exact ill_typed_refuted_md_int. Qed.
-Print Assumptions C15_ill_typed_refuted_md_int.
-(* in general: whatever int() rejects yields an error that does not name the option *)
-Theorem C15_md_int_error_unnamed : forall key x, py_int x = None ->
-  convert_setting TInt key (PList [PStr x]) = Err (s "ValueError") key false.
-Proof. exact md_int_error_unnamed. Qed.
-Print Assumptions C15_md_int_error_unnamed.
 
 (* Paths: the working directory enters only through the project directory it designates ... *)
 Theorem C15_paths_relative_to_project : forall i i',
